@@ -96,12 +96,14 @@ def handle (j : Json) : Json :=
   let branches := tr.map branchName ++
     (if st.foreign then ["foreign.base"] else []) ++
     (if st.log.length > 2 then ["reads.many"] else []) ++
+    (if (cacheFilter inp [] st.log).length < st.log.length then ["cache.hit"] else []) ++
     (if inp.allowed then ["switch.on"] else [])
   -- candidate documents of the spec: the root and every stored location
   let cands : List (Option Url) := inp.root :: inp.store.map (fun e => some e.1)
   let edges := specEdges inp cands
   jobj [
-    ("model", jobj [("log", jstrs (st.log.map renderUrl)), ("ok", Json.bool ok), ("oof", Json.bool st.oof)]),
+    ("model", jobj [("log", jstrs (st.log.map renderUrl)), ("ok", Json.bool ok), ("oof", Json.bool st.oof),
+                    ("cacheLog", jstrs ((cacheFilter inp [] st.log).map renderUrl))]),
     ("spec", jobj [("allowed", Json.bool inp.allowed), ("root", optUrl inp.root),
                    ("edges", Json.arr (edges.map (fun e => Json.arr #[optUrl e.1, Json.str (renderUrl e.2)])).toArray),
                    ("modelOK", Json.bool (specB inp st.log))]),
